@@ -27,10 +27,11 @@ struct AnimSpec {
   std::vector<Track> tracks;
   int32_t enc_speed = -1, dec_speed = -1;
   int32_t force_pred = -100;
+  int32_t builtin = -1;       // use_built_in_attribute_compression: -1 unset, 0 off (raw values in the stream), 1 on
   int32_t delete_track = -1;  // index of a track removed again (PointCloud::DeleteAttribute) before encoding: ids stay sparse
   template <class A>
   void io(A &a) {
-    a(frames); a(timestamps); a(ts_position); a(tracks); a(enc_speed); a(dec_speed); a(force_pred); a(delete_track);
+    a(frames); a(timestamps); a(ts_position); a(tracks); a(enc_speed); a(dec_speed); a(force_pred); a(delete_track); a(builtin);
   }
 };
 
@@ -77,6 +78,10 @@ static std::string run_spec(const AnimSpec &s, bool *nontriv) {
   }
   EncoderOptions opt = EncoderOptions::CreateDefaultOptions();
   if (s.enc_speed >= 0) opt.SetSpeed(s.enc_speed, s.dec_speed);
+  if (s.builtin >= 0) {
+    opt.SetGlobalBool("use_built_in_attribute_compression", s.builtin != 0);
+    count(s.builtin ? "builtin_compression_on_explicit" : "builtin_compression_off_raw_values");
+  }
   for (size_t i = 0; i < s.tracks.size(); ++i) {
     if (!alive[i]) continue;
     const int att_index = an.GetAttributeIdByUniqueId(ids[i]);  // encoder options are keyed by attribute index
@@ -191,6 +196,7 @@ static AnimSpec gen_spec(bool thorough) {
     const double scale = std::pow(10.0, R(-4, 6));
     const double offs = P(70) ? 0 : R(-3, 3) * 1000.0;
     const int vc = W({40, 40, 20});
+    const int narrow = P(45) ? R(1, 32) : 0;
     for (int f = 0; f < s.frames; ++f) {
       for (int c = 0; c < t.ncomp; ++c) {
         if (t.dtype == DT_FLOAT32) {
@@ -212,6 +218,10 @@ static AnimSpec gen_spec(bool thorough) {
             case DT_INT32: lo = -(1ll << wide); hi = (1ll << wide) - 1; break;
             default: lo = 0; hi = (1ll << (wide + 1)) - 1;
           }
+          if (narrow > 0) {  // values of a random bit width inside the type's range (raw byte-width boundaries)
+            const int tb = 8 * sz, nb = 1 + (narrow - 1) % tb;
+            if (lo < 0) { lo = -(1ll << (nb - 1)); hi = (1ll << (nb - 1)) - 1; } else { hi = (1ll << nb) - 1; }
+          }
           int64_t v = vc == 0 ? (f * 3 + c) % 50 : lo + static_cast<int64_t>(sm.below(static_cast<uint64_t>(hi - lo + 1)));
           v = std::max(lo, std::min(hi, v));
           uint8_t b[8];
@@ -229,6 +239,7 @@ static AnimSpec gen_spec(bool thorough) {
   }
   if (P(20)) s.force_pred = pick({-2, 0, 1, 4});
   if (nt >= 2 && P(25)) s.delete_track = R(0, nt - 1);
+  if (P(30)) s.builtin = P(80) ? 0 : 1;
   return s;
 }
 
@@ -237,7 +248,7 @@ static std::string describe(const AnimSpec &s) {
   for (size_t i = 0; i < s.tracks.size(); ++i) {
     tr += (i ? "," : "") + J().num("data_type", s.tracks[i].dtype).num("components", s.tracks[i].ncomp).num("quantization_bits", s.tracks[i].qbits).done();
   }
-  return J().num("frames", s.frames).num("tracks_added_before_timestamps", s.ts_position).raw("tracks", tr + "]").num("encoding_speed", s.enc_speed).num("forced_prediction", s.force_pred)
+  return J().num("frames", s.frames).num("tracks_added_before_timestamps", s.ts_position).raw("tracks", tr + "]").num("encoding_speed", s.enc_speed).num("forced_prediction", s.force_pred).num("built_in_compression", s.builtin)
       .raw("first_timestamps", "[" + [&] { std::string o; for (size_t i = 0; i < s.timestamps.size() && i < 6; ++i) o += (i ? "," : "") + std::to_string(s.timestamps[i]); return o; }() + "]")
       .done();
 }
